@@ -98,9 +98,21 @@ def _opt_path_cmp(m, args, raw):
     return eq if raw.endswith("eq") else not eq
 
 
-@model("Path::to_string_lossy", "Path::display", "OsStr::to_string_lossy")
-def _lossy(m, args, raw):
+@model("Path::display")
+def _display(m, args, raw):
     return Opaque("lossy")
+
+
+@model("Path::to_string_lossy", "OsStr::to_string_lossy")
+def _lossy(m, args, raw):
+    """bytes that are not UTF-8 are carried as lone surrogates (Python's surrogateescape); the lossy conversion replaces each by U+FFFD"""
+    t = text_of(m, args[0])
+    return PStr("".join("\ufffd" if 0xDC80 <= ord(c) <= 0xDCFF else c for c in t))
+
+
+@model("<Cow as AsRef>::as_ref", "<Cow as Deref>::deref", "Cow::into_owned", "<String as AsRef>::as_ref", "<str as AsRef>::as_ref")
+def _cow_text(m, args, raw):
+    return PStr(text_of(m, args[0]))
 
 
 @model("slice::join")
